@@ -181,8 +181,23 @@ class Instance:
         f, _ = self.cls.find("__iter__")
         if f is not None:
             return iter(it.call_method(self, "__iter__", []))
-        n = it.call_method(self, "__len__", [])
-        return iter([it.call_method(self, "__getitem__", [i]) for i in range(n)])
+        if self.cls.find("__len__")[0] is not None:
+            n = it.call_method(self, "__len__", [])
+            return iter([it.call_method(self, "__getitem__", [i]) for i in range(n)])
+        # the legacy sequence protocol: __getitem__(0), (1), ... until IndexError
+        out = []
+        i = 0
+        while True:
+            try:
+                out.append(it.call_method(self, "__getitem__", [i]))
+            except InterpRaise as e:
+                if isinstance(e.exc, IndexError):
+                    break
+                raise
+            i += 1
+            if i > 100000:
+                raise it.undecided("unbounded __getitem__ iteration")
+        return iter(out)
 
     def __call__(self, *a, **k):
         return _INTERP[0].call_method(self, "__call__", list(a), dict(k))
@@ -795,6 +810,11 @@ class Interp:
                     return r
             return self._call_function(fn, args, kwargs)
         if isinstance(fn, ClassValue):
+            hook = self.call_hooks.get((getattr(fn.module, "name", None), fn.name)) if self.call_hooks else None
+            if hook is not None:
+                r = hook(self, fn, args, kwargs)
+                if r is not NotImplemented:
+                    return r
             return self.instantiate(fn, args, kwargs)
         if isinstance(fn, Instance):
             return self.call_method(fn, "__call__", args, kwargs)
